@@ -291,7 +291,12 @@ def run_stress(cfgs, tag, shards=8, timeout=600, cmd='stress'):
         try:
             o, _ = p.communicate(timeout=timeout)
         except subprocess.TimeoutExpired:
-            p.kill(); o, _ = p.communicate()
+            import signal as _signal
+            p.send_signal(_signal.SIGQUIT)      # goroutine dump: where is the worker stuck?
+            try:
+                o, _ = p.communicate(timeout=10)
+            except subprocess.TimeoutExpired:
+                p.kill(); o, _ = p.communicate()
             o += '\n[harness] stress worker timed out'
         done = []
         if os.path.exists(fout):
